@@ -1,0 +1,34 @@
+//go:build verif
+
+// DTLSR contracts (C20) for the govc verifier (see /verif/DESIGN.md). Comment-only.
+
+package routing
+
+// Index bijection between endpoint ids and graph vertices: indexNode has exactly `length` entries, every entry is
+// mapped back to its position, and every tracked id points at the position that holds it.
+// govc:spec idxOK(d *DTLSR) bool = d.nodeIndex != nil && len(d.indexNode) == d.length && d.length >= 0 && (forall i int :: 0 <= i && i < d.length ==> has(d.nodeIndex, d.indexNode[i]) && d.nodeIndex[d.indexNode[i]] == i) && (forall e bpv7.EndpointID :: has(d.nodeIndex, e) ==> 0 <= d.nodeIndex[e] && d.nodeIndex[e] < d.length && d.indexNode[d.nodeIndex[e]] == e)
+
+// newNode tracks an id (once): afterwards it has a vertex; ids tracked before keep their vertex and the vertex list
+// stays as long as the vertex counter says.
+// govc:func (*DTLSR).newNode property C20
+//@ requires dtlsr.nodeIndex != nil && len(dtlsr.indexNode) == dtlsr.length && 0 <= dtlsr.length && dtlsr.length < 4611686018427387904
+//@ ghost k bpv7.EndpointID
+//@ assigns mapof(dtlsr.nodeIndex), dtlsr.indexNode, dtlsr.length, elems(dtlsr.indexNode)
+//@ ensures has(dtlsr.nodeIndex, id)
+//@ ensures old(has(dtlsr.nodeIndex, k)) ==> has(dtlsr.nodeIndex, k) && dtlsr.nodeIndex[k] == old(dtlsr.nodeIndex[k])
+//@ ensures !old(has(dtlsr.nodeIndex, id)) ==> dtlsr.length == old(dtlsr.length) + 1 && dtlsr.nodeIndex[id] == old(dtlsr.length) && dtlsr.indexNode[old(dtlsr.length)] == id
+//@ ensures old(has(dtlsr.nodeIndex, id)) ==> dtlsr.length == old(dtlsr.length)
+//@ ensures len(dtlsr.indexNode) == dtlsr.length && dtlsr.nodeIndex != nil && dtlsr.length >= old(dtlsr.length)
+
+// Accepted link-state data makes every node it names a vertex of the graph (so that the edges computed from it refer
+// to known vertices); data is accepted only from an unknown sender or with a strictly newer timestamp.
+// govc:func (*DTLSR).NotifyNewBundle property C20
+//@ requires dtlsr.c != nil && dtlsr.c.store != nil && dtlsr.receivedData != nil && dtlsr.nodeIndex != nil && len(dtlsr.indexNode) == dtlsr.length && 0 <= dtlsr.length
+//@ requires bp.bndl != nil && blocksNonNil(*bp.bndl) && dtlsrTyped(*bp.bndl)
+//@ ghost n bpv7.EndpointID
+//@ atcall newNode: dtlsr.length < 4611686018427387904 ==> true
+//@ atcall ShouldReplace: has(dtlsr.receivedData, data.ID) && arg1.Timestamp == dtlsr.receivedData[data.ID].Timestamp && arg0.Timestamp == data.Timestamp
+//@ loop 0 invariant dtlsr.nodeIndex != nil && len(dtlsr.indexNode) == dtlsr.length && 0 <= dtlsr.length
+//@ loop 0 invariant visited(data.Peers, n) ==> has(dtlsr.nodeIndex, n) @thorough
+//@ loop 1 invariant dtlsr.nodeIndex != nil && len(dtlsr.indexNode) == dtlsr.length && 0 <= dtlsr.length
+//@ loop 1 invariant visited(data.Peers, n) ==> has(dtlsr.nodeIndex, n) @thorough
